@@ -10,6 +10,33 @@ use std::panic;
 use std::sync::mpsc;
 use std::time::Duration;
 
+// Allocation meter: total bytes requested from the allocator (alloc + the new size of every realloc).  "#ALLOC <program>" reports
+// the bytes requested while the program ran: the observable for hidden copies that wall time does not show (a large realloc may be
+// an mremap, which is cheap in time but is still a reallocation of the whole buffer).
+use std::alloc::{GlobalAlloc, Layout, System};
+use std::sync::atomic::{AtomicU64, Ordering};
+struct Meter;
+static BYTES: AtomicU64 = AtomicU64::new(0);
+unsafe impl GlobalAlloc for Meter {
+    unsafe fn alloc(&self, l: Layout) -> *mut u8 {
+        BYTES.fetch_add(l.size() as u64, Ordering::Relaxed);
+        unsafe { System.alloc(l) }
+    }
+    unsafe fn alloc_zeroed(&self, l: Layout) -> *mut u8 {
+        BYTES.fetch_add(l.size() as u64, Ordering::Relaxed);
+        unsafe { System.alloc_zeroed(l) }
+    }
+    unsafe fn dealloc(&self, p: *mut u8, l: Layout) {
+        unsafe { System.dealloc(p, l) }
+    }
+    unsafe fn realloc(&self, p: *mut u8, l: Layout, new_size: usize) -> *mut u8 {
+        BYTES.fetch_add(new_size as u64, Ordering::Relaxed);
+        unsafe { System.realloc(p, l, new_size) }
+    }
+}
+#[global_allocator]
+static METER: Meter = Meter;
+
 fn run_one(code: String) -> String {
     let r = panic::catch_unwind(move || {
         if code.starts_with('@') {
@@ -63,6 +90,14 @@ fn main() {
             let t0 = std::time::Instant::now();
             let r = run_one(code);
             println!("T {} {}", t0.elapsed().as_micros(), oneline(&r));
+            continue;
+        }
+        if let Some(rest) = raw.strip_prefix("#ALLOC ") {
+            // "T <bytes requested from the allocator> <result>" (same line shape as #TIMED, the unit is bytes)
+            let code = rest.replace("\\n", "\n");
+            let b0 = BYTES.load(Ordering::Relaxed);
+            let r = run_one(code);
+            println!("T {} {}", BYTES.load(Ordering::Relaxed) - b0, oneline(&r));
             continue;
         }
         let code = raw.replace("\\n", "\n");
